@@ -40,6 +40,7 @@ type LSession struct {
 	Tc       bool     `json:"tc"`
 	Chunks   []LChunk `json:"chunks"`
 	Panic    string   `json:"panic"`
+	Prev     []bool   `json:"prev"` // listen level: options [sysex, as, tc] of an EARLIER listener on the same port pair that was stopped before this one started ([] = none)
 	Twin     [][]LMsg `json:"twin"`
 	TwinBase int32    `json:"twinbase"`
 	Feat     []string `json:"feat"`
@@ -72,6 +73,29 @@ func runSession(s *LSession) {
 		opts = append(opts, midi.SysExBufferSize(s.Cap))
 		var stop func()
 		var err error
+		if len(s.Prev) == 3 { // an earlier listener with other options, stopped again: the new one must be a fresh receiver
+			var po []midi.Option
+			if s.Prev[0] {
+				po = append(po, midi.UseSysEx())
+			}
+			if s.Prev[1] {
+				po = append(po, midi.UseActiveSense())
+			}
+			if s.Prev[2] {
+				po = append(po, midi.UseTimeCode())
+			}
+			if pp := hx.Catch(func() {
+				ps, perr := midi.ListenTo(ins[0], func(m midi.Message, ts int32) {}, po...)
+				if perr == nil {
+					outs[0].Open()
+					outs[0].Send([]byte{0x90, 0x10})
+					ps()
+				}
+			}); pp != "" {
+				s.Panic = "previous listener: " + pp
+				return
+			}
+		}
 		p := hx.Catch(func() {
 			stop, err = midi.ListenTo(ins[0], func(m midi.Message, ts int32) {
 				cur = append(cur, LMsg{B: cp(m), Ts: ts})
@@ -123,6 +147,9 @@ func runSession(s *LSession) {
 
 // runWithTwin runs the session and, at listener level with some option off, its all-options-on twin (C14).
 func runWithTwin(s *LSession) {
+	if s.Prev == nil {
+		s.Prev = []bool{}
+	}
 	runSession(s)
 	s.Twin = [][]LMsg{}
 	s.TwinBase = 0
@@ -190,6 +217,16 @@ func genMessage(r *rand.Rand, cap uint32, prevStatus byte) []byte {
 		return []byte{0xF3, d7(r)}
 	case k < 14:
 		return []byte{0xF6}
+	case k < 18 && r.Intn(5) == 0: // well-known universal system exclusive messages (their content must not matter to anybody)
+		known := [][]byte{
+			{0xF0, 0x7F, 0x7F, 0x01, 0x01, 0x21, 0x02, 0x03, 0x04, 0xF7}, // MTC full frame
+			{0xF0, 0x7F, 0x7F, 0x06, 0x02, 0xF7},                         // MMC play
+			{0xF0, 0x7F, 0x7F, 0x04, 0x01, 0x00, 0x7F, 0xF7},             // master volume
+			{0xF0, 0x7E, 0x7F, 0x09, 0x01, 0xF7},                         // GM on
+			{0xF0, 0x7E, 0x7F, 0x06, 0x01, 0xF7},                         // identity request
+			{0xF0, 0x7F, 0x10, 0x01, 0x01, 0x00, 0x00, 0x00, 0x00, 0xF7},
+		}
+		return append([]byte{}, known[r.Intn(len(known))]...)
 	case k < 18: // sysex, length around the buffer size
 		var n int
 		switch r.Intn(8) {
@@ -357,6 +394,13 @@ func genSession(r *rand.Rand, id int, lvl string) *LSession {
 	default:
 		stream = append(genGarbage(r, 1+r.Intn(20)), genWire(r, s.Cap, 1+r.Intn(20), false, feat)...)
 		feat["garbage_prefix"] = true
+	}
+	if s.Prev == nil {
+		s.Prev = []bool{}
+	}
+	if lvl == "listen" && r.Intn(4) == 0 {
+		s.Prev = []bool{r.Intn(2) == 0, r.Intn(2) == 0, r.Intn(2) == 0}
+		feat["previous_listener"] = true
 	}
 	if lvl == "listen" { // calibration chunk (a real-time Start: touches no decoder state) fixes the origin of the driver's clock
 		s.Chunks = append(s.Chunks, LChunk{Dt: 0, Bytes: hx.B{0xFA}})
@@ -665,7 +709,7 @@ func cmdLiveWalk(args []string) {
 						}
 					}
 					if p != "" || !eqOut(got, e.out) {
-						s := &LSession{ID: ni, Lvl: *lvl, Cap: capv, Sysex: sysex, As: as, Tc: tc, Feat: []string{"walk"}}
+						s := &LSession{ID: ni, Lvl: *lvl, Cap: capv, Sysex: sysex, As: as, Tc: tc, Feat: []string{"walk"}, Prev: []bool{}}
 						if *lvl == "listen" {
 							s.Chunks = append(s.Chunks, LChunk{Dt: 0, Bytes: hx.B{0xFA}})
 						}
